@@ -384,7 +384,7 @@ FetchValue(t, s) ==
       rt == IF Peek(t, s0, 0) = "\t" THEN SkipWsToEolR(t, s0, TRUE) ELSE [s |-> s0, tabs |-> FALSE, ws |-> TRUE]
       s1 == rt.s
   IN IF s1.err # "" THEN s1
-     ELSE IF Peek(t, s0, 0) = "\t" /\ ~rt.ws /\ (Peek(t, s1, 0) = "-" \/ Peek(t, s1, 0) \in Alpha)
+     ELSE IF Peek(t, s0, 0) = "\t" /\ ~rt.ws /\ s1.flow = 0 /\ (Peek(t, s1, 0) = "-" \/ Peek(t, s1, 0) \in Alpha)
      THEN Fail(s1, "':' must be followed by a valid YAML whitespace")
      ELSE IF sk.possible
      THEN LET p == sk.tn - s1.parsed
